@@ -209,11 +209,11 @@ func render(r rendering, leaves []leaf) (res string, trace []int) {
 // ---- the enumeration
 
 type class struct {
-	k, u int
-	core bool // only the core operators
-	few  bool // only print / if / set
-	mid  bool // five parenthesis/spacing combinations instead of eight
-	rots int  // how many leaf rotations to run (best first)
+	k, u  int
+	core  bool // only the core operators
+	few   bool // only print / if / set
+	mid   bool // five parenthesis/spacing combinations instead of eight
+	rots  int  // how many leaf rotations to run (best first)
 	cross bool // every parenthesis style x every spacing, plus all optional-parenthesis subsets
 }
 
@@ -304,12 +304,12 @@ func analyse(in *inst, want val) (structural, distinguished int, names []string)
 }
 
 type candidate struct {
-	rot          int
-	in           *inst
-	v            val
-	trace        []int
-	structural   int
-	dist         int
+	rot        int
+	in         *inst
+	v          val
+	trace      []int
+	structural int
+	dist       int
 }
 
 // chooseRotations: the well-defined leaf assignments of the skeleton, the most discriminating first.
@@ -361,14 +361,14 @@ func valueClass(v val) string {
 }
 
 type mismatch struct {
-	Expr     string `json:"expression"`
-	Value    string `json:"model_value"`
-	Style    string `json:"style"`
-	Position string `json:"position"`
-	Template string `json:"template"`
+	Expr     string            `json:"expression"`
+	Value    string            `json:"model_value"`
+	Style    string            `json:"style"`
+	Position string            `json:"position"`
+	Template string            `json:"template"`
 	Aux      map[string]string `json:"aux_templates,omitempty"`
-	Got      string `json:"got"`
-	Want     string `json:"want"`
+	Got      string            `json:"got"`
+	Want     string            `json:"want"`
 }
 
 func runCase(sk *node, c class) *vlib.Outcome {
